@@ -14,8 +14,8 @@
    the checks of one candidate only those up to and including the first that fails — the one
    licensed difference (an async machine evaluates all checks of a candidate). *)
 From Coq Require Import List Arith Bool.
-From M Require Import Base Flat FlatSpec Async.
-From P Require Import FlatP AsyncP.
+From M Require Import Base Hsm AsyncHsm Flat FlatSpec Queue Async.
+From P Require Import FlatP QueueP AsyncP AsyncQueueP AsyncHsmP.
 Import ListNotations.
 
 (* For every machine (registered or not, well-formed or not), every user behaviour that does not
@@ -224,3 +224,175 @@ Theorem C07_raise_stage_refuted :
   snd (atrigger mc_raise rp (fun _ => 0) c 0 0) = AwExn (UserExn 1).
 Proof. exact raise_stage_differs. Qed.
 Print Assumptions C07_raise_stage_refuted.
+
+(* ------------------------------------------------------------------------------------------------
+   The queue modes.  AsyncMachine._process_async (Async.adrain: the while loop over the deque [key] of
+   _transition_queue_dict; Async.atop_trigger: a trigger arriving from outside) REFINES the abstract queue
+   of C05 — Queue.drain / Queue.top_trigger, which are generic in the "process one event" step — instantiated
+   with the asynchronous event step [qstep] (one awaited AsyncEvent._trigger: the stages of the event and what
+   awaiting it gave).  queued=True: key 0, the one shared deque; queued='model': key S m, the deque of model
+   m.  [targets_ok]: the triggers awaited from callbacks go to the deque being drained — always so for
+   queued=True (C07_queue_shared), and for queued='model' exactly when callbacks trigger their own model
+   (a trigger on another model whose deque is idle is processed inside the callback: outside the model).
+   [R key w s]: the abstract queue is the deque [key], same arrival counter. *)
+Theorem C07_queue_refines :
+  forall (mc : machine) (ev : env) (suspf : cbid -> nat -> nat) (md : qmode) (key : nat),
+    targets_ok mc ev suspf md key ->
+    forall (fuel : nat) (w : aworld) (s : qstate),
+      R key w s ->
+      match adrain mc ev suspf md fuel key w with
+      | Some (bs, x, w') =>
+          exists s' : qstate,
+            drain (qstep mc ev suspf) qpayload fuel (aw_states w) s = Some (map to_block bs, x, aw_states w', s') /\
+            R key w' s' /\
+            (forall k', k' <> key -> qget (aw_queues w') k' = qget (aw_queues w) k')
+      | None => drain (qstep mc ev suspf) qpayload fuel (aw_states w) s = None
+      end.
+Proof. exact adrain_refines. Qed.
+Print Assumptions C07_queue_refines.
+
+Theorem C07_queue_top_refines :
+  forall (mc : machine) (ev : env) (suspf : cbid -> nat -> nat) (md : qmode) (key : nat),
+    targets_ok mc ev suspf md key ->
+    forall (fuel : nat) (w : aworld) (m : model) (e a : nat) (ts : list trans),
+      lookup (m_events mc) e = Some ts -> md <> QOff -> qkey md m = key ->
+      qget (aw_queues w) key = [] ->
+      match atop_trigger mc ev suspf md fuel w m e a with
+      | Some (bs, r, w') =>
+          exists (x : option exn) (s' : qstate),
+            top_trigger (qstep mc ev suspf) qpayload fuel (aw_states w) (abs_state key w) m e a
+              = Some (map to_block bs, x, aw_states w', s') /\
+            R key w' s' /\ r = match x with Some ex => AwExn ex | None => AwRet true end
+      | None => top_trigger (qstep mc ev suspf) qpayload fuel (aw_states w) (abs_state key w) m e a = None
+      end.
+Proof. exact atop_refines. Qed.
+Print Assumptions C07_queue_top_refines.
+
+(* queued=True: the hypothesis of the refinement holds for every machine and behaviour *)
+Theorem C07_queue_shared :
+  forall (mc : machine) (ev : env) (suspf : cbid -> nat -> nat), targets_ok mc ev suspf QAll 0.
+Proof. exact targets_ok_all. Qed.
+Print Assumptions C07_queue_shared.
+
+(* Hence the theorems of C05 (proved for every step) hold of the asynchronous queue.
+   Run-to-completion + FIFO + at most once: the arrival numbers of the processed events (one block per
+   event, each the complete awaited _trigger) strictly increase, also relative to what stays pending. *)
+Theorem C07_queue_fifo_once :
+  forall (mc : machine) (ev : env) (suspf : cbid -> nat -> nat) (md : qmode) (key : nat),
+    targets_ok mc ev suspf md key ->
+    forall (fuel : nat) (w : aworld) (lo : nat) (bs : list ablock) (x : option exn) (w' : aworld),
+      within lo (aw_next w) (aids (qget (aw_queues w) key)) ->
+      adrain mc ev suspf md fuel key w = Some (bs, x, w') ->
+      within lo (aw_next w') (abids bs ++ aids (qget (aw_queues w') key)) /\ aw_next w <= aw_next w'.
+Proof. exact adrain_fifo_once. Qed.
+Print Assumptions C07_queue_fifo_once.
+
+(* If an event raises, it is the last one processed, no earlier one raised, and the deque is empty afterwards
+   (every pending trigger is discarded); without an exception every block ended normally. *)
+Theorem C07_queue_raise_discards :
+  forall (mc : machine) (ev : env) (suspf : cbid -> nat -> nat) (md : qmode) (key : nat),
+    targets_ok mc ev suspf md key ->
+    forall (fuel : nat) (w : aworld) (bs : list ablock) (x : option exn) (w' : aworld),
+      adrain mc ev suspf md fuel key w = Some (bs, x, w') ->
+      qget (aw_queues w') key = [] /\
+      match x with
+      | Some e => exists bs0 b, bs = bs0 ++ [b] /\ ab_result b = AwExn e /\
+                                Forall (fun b0 => exn_of (ab_result b0) = None) bs0
+      | None => Forall (fun b => exn_of (ab_result b) = None) bs
+      end.
+Proof. exact adrain_raise_discards. Qed.
+Print Assumptions C07_queue_raise_discards.
+
+(* `await model.trigger(e)` at an idle deque: the first processed event is the call itself, then the triggers
+   awaited from callbacks in arrival order, none twice; the deque ends empty. *)
+Theorem C07_queue_top :
+  forall (mc : machine) (ev : env) (suspf : cbid -> nat -> nat) (md : qmode) (key : nat),
+    targets_ok mc ev suspf md key ->
+    forall (fuel : nat) (w : aworld) (m : model) (e a : nat) (ts : list trans) (bs : list ablock)
+           (r : aresult) (w' : aworld),
+      lookup (m_events mc) e = Some ts -> md <> QOff -> qkey md m = key ->
+      qget (aw_queues w) key = [] ->
+      atop_trigger mc ev suspf md fuel w m e a = Some (bs, r, w') ->
+      within (aw_next w) (aw_next w') (abids bs) /\ NoDup (abids bs) /\ qget (aw_queues w') key = [] /\
+      (exists b rest, bs = b :: rest /\ ab_entry b = mkAE (aw_next w) m e a).
+Proof. exact atop_fifo. Qed.
+Print Assumptions C07_queue_top.
+
+(* ... at a busy deque (i.e. awaited from a callback): only appended, True at once, nothing is processed *)
+Theorem C07_queue_deferred :
+  forall (mc : machine) (ev : env) (suspf : cbid -> nat -> nat) (md : qmode) (fuel : nat) (w : aworld)
+         (m : model) (e a : nat) (ts : list trans) (h : aentry) (tl : list aentry),
+    lookup (m_events mc) e = Some ts -> md <> QOff ->
+    qget (aw_queues w) (qkey md m) = h :: tl ->
+    atop_trigger mc ev suspf md fuel w m e a =
+      Some ([], AwRet true,
+            mkAW (aw_states w) (qset (aw_queues w) (qkey md m) (h :: tl ++ [mkAE (aw_next w) m e a])) (S (aw_next w))).
+Proof. exact atop_busy. Qed.
+Print Assumptions C07_queue_deferred.
+
+(* non-vacuity (queued='model'): a callback of the first event awaits two triggers on its own model *)
+Example C07_queue_example :
+  match atop_trigger mc_q ev_q (fun _ _ => 1) QPerModel 10 (mkAW [(0, 0)] [] 0) 0 0 100 with
+  | Some (bs, r, w') => abids bs = [0; 1; 2] /\ map (fun b => ae_payload (ab_entry b)) bs = [100; 1000; 1001] /\
+                        r = AwRet true /\ aw_states w' = [(0, 1)] /\ aw_next w' = 3
+  | None => False
+  end.
+Proof. exact queue_example. Qed.
+Print Assumptions C07_queue_example.
+
+(* ------------------------------------------------------------------------------------------------
+   HierarchicalAsyncMachine.  AsyncHsm.v is the hierarchical asynchronous engine (the hand copies in
+   asyncio.py of trigger_nested / _process / _trigger_event_nested / _trigger_event / _can_trigger* and
+   NestedAsyncTransition._change_state: exit partials awaited one by one, model update, enter partials one by
+   one, the on_final groups one after another, the callbacks of ONE list gathered), written over the async
+   monad and re-using only the pure definitions of Hsm.v that the Python copies share with nesting.py.
+   [gstage_view] is stage_view for configurations as the state seen; [gaview] applies it to the trace.
+
+   For EVERY hierarchical machine (any depth, parallel states, transitions declared in any scope, registered
+   or not), every active configuration, event, context, every behaviour that does not raise and every
+   suspension assignment: the asynchronous engine yields exactly the items of the synchronous engine Hsm.v
+   (same callbacks, same CONFIGURATION SEEN, same order: children's exits before the parent's, enters top
+   down, on_final groups in order) up to stage_view, the same final configuration and the same result /
+   machine-raised exception (MachineError / AttributeError for invalid triggers, ValueError). *)
+Theorem C07_nested :
+  forall (hm : hmachine) (rp : cbid -> reply) (susp : cbid -> nat) (c : ctx) (e : event) (p : nat) (f : forest),
+    no_raise_rp rp ->
+    gaview (hatrigger_event hm rp susp c e f) = Hsm.trigger_event hm (ev_of rp) c e p f.
+Proof. exact nested_sim. Qed.
+Print Assumptions C07_nested.
+
+(* may_<event> on hierarchical machines: HierarchicalAsyncMachine._can_trigger against HierarchicalMachine's *)
+Theorem C07_nested_may :
+  forall (hm : hmachine) (rp : cbid -> reply) (susp : cbid -> nat) (c : ctx) (e : event) (p : nat) (f : forest),
+    no_raise_rp rp ->
+    gaview (hacan_trigger hm rp susp c e f) = Hsm.can_trigger hm (ev_of rp) c e p f.
+Proof. exact nested_may_sim. Qed.
+Print Assumptions C07_nested_may.
+
+(* one gathered stage of the hierarchical engine: the callbacks are started in list order with the
+   configuration at the time of the gather, whatever the suspension counts (also when some raise) *)
+Theorem C07_nested_stage_starts :
+  forall (rp : cbid -> reply) (susp : cbid -> nat) (c : ctx) (err : option exn) (f : forest)
+         (cbs : list (slot * cbid)),
+    gstarts (ggather_evs rp susp c err f cbs) = map (fun x => gmk_item rp c (fst x) err f (snd x)) cbs.
+Proof. exact (@gstarts_gather forest). Qed.
+Print Assumptions C07_nested_stage_starts.
+
+(* the stages of a hierarchical event, the callbacks started in each of them (with the configuration they see),
+   the final configuration and the result do not depend on the suspension counts — for ANY behaviour, raising
+   or not: a condition is honoured whether it returns its value directly or through an awaitable *)
+Theorem C07_nested_cond_awaitable :
+  forall (hm : hmachine) (rp : cbid -> reply) (su1 su2 : cbid -> nat) (c : ctx) (e : event) (f : forest),
+    gsview (hatrigger_event hm rp su1 c e f) = gsview (hatrigger_event hm rp su2 c e f).
+Proof. exact nested_susp_irrelevant. Qed.
+Print Assumptions C07_nested_cond_awaitable.
+
+Example C07_nested_example :
+  no_raise_rp rp_ex /\
+  let a := hatrigger_event hm_ex rp_ex su_ex (mkCtx 0 5 true) 0 f_ex in
+  map it_cb (flat_map (fun sg => gstarts (gs_evs sg)) (fst (fst a))) = [50; 5; 6; 7; 8; 50; 9; 10; 21; 22; 31; 12; 41; 42; 52; 13; 51] /\
+  map it_cb (gstage_view (fst (fst a))) = [50; 5; 6; 7; 50; 9; 10; 21; 22; 31; 12; 41; 42; 52; 13; 51] /\
+  map snd (flat_map (fun sg => gends (gs_evs sg)) (fst (fst a))) = [50; 5; 6; 7; 8; 50; 9; 10; 22; 21; 31; 12; 41; 42; 52; 13; 51] /\
+  snd (fst a) = [Node 4 []] /\ snd a = inr true.
+Proof. exact nested_example. Qed.
+Print Assumptions C07_nested_example.
